@@ -43,6 +43,9 @@ class GeckoWaterCare(GeckoAutomationFacadeBase):
             ),
             self._spa.sendparms,
         )
+        # A poll that is still in flight would report the mode from before this
+        # change, so it must not be allowed to overwrite it
+        self._water_care_handler = None
         if new_mode != self.active_mode:
             self.active_mode = new_mode
 
@@ -58,6 +61,9 @@ class GeckoWaterCare(GeckoAutomationFacadeBase):
         self.change_watercare_mode(new_mode)
 
     def _on_watercare(self, handler, sender):
+        if handler is not self._water_care_handler:
+            # Stale reply, set_mode was called after this poll was sent
+            return
         if self.active_mode != handler.mode:
             old_mode = self.active_mode
             self.active_mode = handler.mode
